@@ -631,7 +631,7 @@ func checkC08(e *env) {
 
 func checkC09(e *env) {
 	r := e.res
-	r.Rule = "valid polygons inside synthetic grids (zero, negative and positive origins) and a NetherlandsRDNewQuad window at the extent's corner, with one or more vertices moved outside the half-open extent by " +
+	r.Rule = "valid polygons inside synthetic grids (zero, negative and positive origins) and a NetherlandsRDNewQuad window at the extent's corner, with one vertex moved outside the half-open extent, or (a quarter of the cases) the whole polygon translated beyond a side or corner, by " +
 		"1 unit (1e-10), res-1, res, res+1 units and random distances, on each side and corner (left/bottom: just below min; right/top: exactly max and beyond), both values of ignore-outside-grid; " +
 		"expected: panic with OutsideGridError by default, empty result with the flag; addr: InsertPoint on grids with various origins against the model's floor-division address. " +
 		"Non-trivial = the vertex is less than one pixel outside, or exactly on the right/top border; distinct by op text."
@@ -687,17 +687,63 @@ func checkC09(e *env) {
 		default:
 			p.x, p.y = maxX+delta-1, g.minY-delta
 		}
-		f := [2]float64{floatFor(p.x), floatFor(p.y)}
-		q := intgeom.FromGeomPoint(f)
-		if q[0] != p.x || q[1] != p.y {
-			r.Dist["c09:skipped(no float quantises to the wanted integer)"]++
-			continue
-		}
 		poly := make(geom.Polygon, len(c.poly))
 		for i := range c.poly {
 			poly[i] = append([][2]float64{}, c.poly[i]...)
 		}
-		poly[ri][vi] = f
+		whole := e.rng.Intn(4) == 0
+		if whole {
+			// the whole polygon outside: translate it so that its nearest vertex is `delta` beyond the chosen side(s)
+			bx0, by0, bx1, by1 := c.rings[0][0].x, c.rings[0][0].y, c.rings[0][0].x, c.rings[0][0].y
+			for _, rg := range c.rings {
+				for _, v := range rg {
+					bx0, by0, bx1, by1 = min(bx0, v.x), min(by0, v.y), max(bx1, v.x), max(by1, v.y)
+				}
+			}
+			var dx, dy int64
+			switch side {
+			case 0:
+				dx = g.minX - delta - bx1
+			case 1:
+				dy = g.minY - delta - by1
+			case 2:
+				dx = maxX + delta - 1 - bx0
+			case 3:
+				dy = maxY + delta - 1 - by0
+			case 4:
+				dx, dy = g.minX-delta-bx1, g.minY-delta-by1
+			case 5:
+				dx, dy = maxX+delta-1-bx0, maxY+delta-1-by0
+			case 6:
+				dx, dy = g.minX-delta-bx1, maxY+delta-1-by0
+			default:
+				dx, dy = maxX+delta-1-bx0, g.minY-delta-by1
+			}
+			okq := true
+			for i, rg := range c.rings {
+				for j, v := range rg {
+					f := [2]float64{floatFor(v.x + dx), floatFor(v.y + dy)}
+					if q := intgeom.FromGeomPoint(f); q[0] != v.x+dx || q[1] != v.y+dy {
+						okq = false
+					}
+					poly[i][j] = f
+				}
+			}
+			if !okq {
+				r.Dist["c09:skipped(no float quantises to the wanted integer)"]++
+				continue
+			}
+			p = ipt{c.rings[0][0].x + dx, c.rings[0][0].y + dy}
+			r.Dist["c09:whole-polygon-outside"]++
+		} else {
+			f := [2]float64{floatFor(p.x), floatFor(p.y)}
+			q := intgeom.FromGeomPoint(f)
+			if q[0] != p.x || q[1] != p.y {
+				r.Dist["c09:skipped(no float quantises to the wanted integer)"]++
+				continue
+			}
+			poly[ri][vi] = f
+		}
 		c.setPoly(poly)
 		c.tag = "outside"
 		sr := c.runImpl()
